@@ -134,11 +134,13 @@ def run(ctx):
                 cases.append(c)
                 meta[lib.case_id(c)] = dict(pos=pos, fail=None, bad=bad_kind, n=len(pols))
         # reader failure at several byte positions
-        fails = sorted({0, 1, len(doc) - 1, len(doc) // 2} | {r.randrange(0, len(doc)) for _ in range(6 if quick else 40)})
+        # failure positions: start, end, middle, random, and every policy boundary (where a truncated prefix is itself a valid document)
+        fails = sorted({0, 1, len(doc) - 1, len(doc) // 2} | {r.randrange(0, len(doc)) for _ in range(6 if quick else 40)}
+                       | {o for (o, _, _) in pos[1:]} | {o - 1 for (o, _, _) in pos[1:] if o > 0})
         for f in fails:
             n += 1
             sc = r.choice(scheds)
-            c = '(case s%d stream x%s (sizes %s) (failat %d) (eofwithdata %d))' % (n, doc.hex(), ' '.join(map(str, sc)), f, r.randrange(2))
+            c = '(case s%d stream x%s (sizes %s) (failat %d) (eofwithdata %d) (failonce %d))' % (n, doc.hex(), ' '.join(map(str, sc)), f, r.randrange(2), r.randrange(2))
             cases.append(c)
             meta[lib.case_id(c)] = dict(pos=pos, fail=f, bad=bad_kind, n=len(pols))
     ctx.rule = ('documents of 1-7 policies (hand-written + reference-rendered with comments, CRLF, multi-byte text, 1.6 kB strings and 2.4 kB comments, '
